@@ -31,7 +31,7 @@ class SourceIndex:
 
     def find(self, key: str):
         """key = module:qualname -> (FunctionDef node, source segment, first line, last line)."""
-        module, qual = key.split(':')
+        module, qual = key.split(':')[:2]
         tree, src = self.module_ast(module)
         node = tree
         for part in qual.split('.'):
